@@ -145,7 +145,8 @@ func (c *syncMap) deleteExpired(before time.Time) {
 	c.data.Range(func(key, value interface{}) bool {
 		cacheEntry := value.(*TraitEntry) //nolint // Panic on type assertion failure is fine here.
 		if e := atomic.LoadInt64(&cacheEntry.E); e != 0 && e < beforeTS {
-			c.data.Delete(key)
+			// The entry may have been replaced with a fresh one since it was examined.
+			deleteSame(&c.data, key, cacheEntry)
 		}
 
 		return true
